@@ -21,7 +21,7 @@ open Tv Tv.Proto Tv.Handlers
 /-- per-function handlers -/
 def baseHandlers : List Handler := [c01, c02, c10, c07, c19, c14, c03, c09, c13, c12, c17, c18, c20, c11, c15, c16, c04]
 
-def handlers : List Handler := baseHandlers ++ [c06 baseHandlers]
+def handlers : List Handler := baseHandlers ++ [c06 baseHandlers, c08 baseHandlers]
 
 def respond (line : String) : String :=
   let (fn, r) := parseReq line
